@@ -746,6 +746,51 @@ def r6(report, db, F):
                 R, 'scaling:%s' % qn, sd.path, sd.node, sd.qualname,
                 'read applies factor %s%s, send applies %s%s: not inverse'
                 % (mr.coef, mr.syms or '', ms.coef, ms.syms or ''))
+    # Angle.send wraps twice: the angle into one turn before scaling, the
+    # step count into the carrier after rounding; each modulus must be the
+    # constant of the scaling next to it (v % D / D, round(K * ..) % K)
+    ang = db.get_class(BASIC, 'Angle')
+    asend = db.own_method(ang, 'send')
+    wraps = []
+
+    def cst(x):
+        x = fold_name(db, asend, x)
+        return x.value if isinstance(x, ast.Constant) and isinstance(
+            x.value, (int, float)) and not isinstance(x.value, bool) \
+            else None
+    for node in ast.walk(asend.node):
+        if isinstance(node, ast.BinOp) and isinstance(node.op, ast.Div) and \
+                isinstance(node.left, ast.BinOp) and isinstance(
+                    node.left.op, ast.Mod):
+            a, b = cst(node.left.right), cst(node.right)
+            if a is not None and b is not None:
+                wraps.append(('turn', a, b, node))
+        if isinstance(node, ast.BinOp) and isinstance(node.op, ast.Mod) and \
+                isinstance(node.left, ast.Call) and isinstance(
+                    node.left.func, ast.Name) and node.left.func.id in (
+                        'round', 'int') and node.left.args and isinstance(
+                            node.left.args[0], ast.BinOp) and isinstance(
+                                node.left.args[0].op, ast.Mult):
+            m = node.left.args[0]
+            k = cst(m.left) if cst(m.left) is not None else cst(m.right)
+            c = cst(node.right)
+            if k is not None and c is not None:
+                wraps.append(('steps', c, k, node))
+    for kind, a, b, node in wraps:
+        n += 0
+        if a == b:
+            report.ok(R, 'Angle.send wraps the %s modulo %r, the constant '
+                      'it scales by' % ('angle' if kind == 'turn'
+                                        else 'step count', a))
+        else:
+            report.violation(
+                R, 'scaling:Angle:wrap:%s' % kind, asend.path, node,
+                asend.qualname, 'Angle.send wraps the %s modulo %r but '
+                'scales by %r: %s' % (
+                    'angle' if kind == 'turn' else 'step count', a, b,
+                    'angles between the two are sent as if they were past a '
+                    'full turn' if kind == 'turn' else
+                    'the top step counts are folded onto the wrong steps'))
     # the factor itself: FixedPoint(T, n) divides by 2**n for *every* n the
     # constructor can be given (0 included), and by 2**5 when n is omitted
     from ..fold import ClassVal, FoldRaise
@@ -797,6 +842,19 @@ def r6(report, db, F):
                          'read scales %r but send scales %r (guard, op, '
                          'constant must mirror)' % (ra, sa))
     report.floor('scaling codec pairs', n, 5)
+
+
+def fold_name(db, fi, x):
+    """a module-level constant named in an expression, as its literal"""
+    if isinstance(x, ast.Name):
+        try:
+            ent = db.resolve_dotted(fi.module, x)
+        except AnalysisError:
+            return x
+        if isinstance(ent, tuple) and ent[0] == 'value' and isinstance(
+                ent[1], ast.Constant):
+            return ent[1]
+    return x
 
 
 def sym_of(n):
